@@ -220,6 +220,76 @@ fn soup(r: &mut Rng, tb: &[OpSpec], len: usize) -> String {
     }
     toks.join(" ")
 }
+
+/// Classification of a sloppy text for known finding F12.  Light lexer (the text has been accepted by both parsers, so it
+/// lexes): parentheses, operator names by longest match, numbers, names.  True iff some parenthesis level starts with a
+/// binary-only operator (prefix notation `op a b`) and, between that operator and the first pair of directly adjacent
+/// operands of the level, has a parenthesis group that contains an operator in binary position.
+#[derive(Clone, Debug, PartialEq)]
+enum LTok { Open, Close, Op(usize), Leaf }
+fn light_lex(text: &str, tb: &[OpSpec]) -> Vec<LTok> {
+    let cs: Vec<char> = text.chars().collect();
+    let mut i = 0; let mut out = vec![];
+    while i < cs.len() {
+        let c = cs[i];
+        if c.is_whitespace() || c == ',' { i += 1; continue }
+        if c == '(' { out.push(LTok::Open); i += 1; continue }
+        if c == ')' { out.push(LTok::Close); i += 1; continue }
+        if c == '{' { while i < cs.len() && cs[i] != '}' { i += 1 } i += 1; out.push(LTok::Leaf); continue }
+        if c.is_ascii_digit() || (c == '.' && i + 1 < cs.len() && cs[i + 1].is_ascii_digit()) {
+            while i < cs.len() && (cs[i].is_ascii_digit() || cs[i] == '.') { i += 1 }
+            out.push(LTok::Leaf); continue
+        }
+        let rest: String = cs[i..].iter().collect();
+        let mut best: Option<usize> = None;
+        for (k, o) in tb.iter().enumerate() {
+            if !o.repr.is_empty() && rest.starts_with(&o.repr) && best.map(|b| tb[b].repr.len() < o.repr.len()).unwrap_or(true) {
+                // an alphabetic name must not continue as an identifier
+                let n = o.repr.chars().count();
+                let cont = is_alpha_name(&o.repr) && i + n < cs.len() && (cs[i + n].is_alphanumeric() || cs[i + n] == '_');
+                if !cont { best = Some(k) }
+            }
+        }
+        if let Some(k) = best { out.push(if tb[k].constant { LTok::Leaf } else { LTok::Op(k) }); i += tb[k].repr.chars().count(); continue }
+        if c.is_alphabetic() || c == '_' { while i < cs.len() && (cs[i].is_alphanumeric() || cs[i] == '_') { i += 1 } out.push(LTok::Leaf); continue }
+        i += 1;
+    }
+    out
+}
+pub fn prefix_operator_over_group(text: &str, tb: &[OpSpec]) -> bool {
+    let toks = light_lex(text, tb);
+    // items of one level: (is_operand, is_group, group_has_binary_operator, op index)
+    fn level(toks: &[LTok], pos: &mut usize, tb: &[OpSpec], bad: &mut bool) -> bool {
+        // returns whether the level contains an operator in binary position (at any depth)
+        let mut items: Vec<(bool, bool, bool, Option<usize>)> = vec![];
+        let mut has_bin = false;
+        while *pos < toks.len() {
+            match &toks[*pos] {
+                LTok::Close => { *pos += 1; break }
+                LTok::Open => { *pos += 1; let inner = level(toks, pos, tb, bad); has_bin |= inner; items.push((true, true, inner, None)); }
+                LTok::Leaf => { *pos += 1; items.push((true, false, false, None)); }
+                LTok::Op(k) => {
+                    *pos += 1;
+                    let after_operand = items.last().map(|it| it.0).unwrap_or(false);
+                    if tb[*k].bin.is_some() && after_operand { has_bin = true }
+                    items.push((false, false, false, Some(*k)));
+                }
+            }
+        }
+        if let Some((false, _, _, Some(k))) = items.first() {
+            if tb[*k].bin.is_some() && !tb[*k].unary {
+                // the first pair of directly adjacent operands; both must be plain operands (`)(` and `) x` are other defects)
+                if let Some(j) = (0..items.len().saturating_sub(1)).find(|i| items[*i].0 && items[*i + 1].0) {
+                    if !items[j].1 && !items[j + 1].1 && items[..j].iter().any(|it| it.1 && it.2) { *bad = true }
+                }
+            }
+        }
+        has_bin
+    }
+    let mut pos = 0; let mut bad = false;
+    while pos < toks.len() { level(&toks, &mut pos, tb, &mut bad); }
+    bad
+}
 /// C03: conversion histories, operator listings, and sloppy strings accepted by both parsers
 pub fn c03(a: &Args) -> CaseSet {
     let mut cs = CaseSet::default();
@@ -284,9 +354,31 @@ pub fn c03(a: &Args) -> CaseSet {
         } }
     }
     // sloppy strings: only the agreement of the two parsers is the oracle
-    for i in 0..a.n {
+    let n_prefix = (a.n / 2).max(40);
+    for i in 0..a.n + n_prefix {
         let tb = if i % 2 == 0 { t0.clone() } else { pick_table(&mut r, a) };
-        let text = if i % 3 == 0 {
+        let text = if i >= a.n {
+            // prefix-operator strings: one binary-only operator too many in front of a level, one missing between two
+            // bare leaves later in the level:  o0 (A o)^k L L' (p B)^m, optionally inside a group of a larger text
+            let binonly: Vec<usize> = (0..tb.len()).filter(|k| tb[*k].bin.is_some() && !tb[*k].unary && !tb[*k].constant).collect();
+            let anybin: Vec<usize> = (0..tb.len()).filter(|k| tb[*k].bin.is_some()).collect();
+            if binonly.is_empty() { continue }
+            let cfg = GenCfg { max_depth: 2, max_chain: 2, ..GenCfg::default_for(&tb) };
+            let rc = RenderCfg { spaces: true, braces: false, redundant_parens: false, call_space: false };
+            let atom_text = |r: &mut Rng| { let mut sz = 3; let at = gen_atom(r, &tb, &cfg, 1, &mut sz); render(&Chain { first: Box::new(at), rest: vec![] }, &tb, r, &rc) };
+            let leaf = |r: &mut Rng| if r.chance(1, 2) { ["1", "2", "3.5", "7"][r.below(4)].to_string() } else { ["x", "y", "z"][r.below(3)].to_string() };
+            let mut toks: Vec<String> = vec![tb[*r.pick(&binonly)].repr.clone()];
+            for _ in 0..r.below(3) { toks.push(atom_text(&mut r)); toks.push(tb[*r.pick(&anybin)].repr.clone()); }
+            if r.chance(1, 5) { toks.push(atom_text(&mut r)); toks.push(atom_text(&mut r)); } else { toks.push(leaf(&mut r)); toks.push(leaf(&mut r)); }
+            for _ in 0..r.below(3) { toks.push(tb[*r.pick(&anybin)].repr.clone()); toks.push(atom_text(&mut r)); }
+            let level = toks.join(" ");
+            match r.below(4) {
+                0 => level,
+                1 => format!("( {level} )"),
+                2 => format!("( {level} ) {} {}", tb[*r.pick(&anybin)].repr, leaf(&mut r)),
+                _ => format!("{} {} ( {level} )", leaf(&mut r), tb[*r.pick(&anybin)].repr),
+            }
+        } else if i % 3 == 0 {
             // damage a well formed text by deleting one token-ish character
             let cfg = GenCfg::default_for(&tb);
             let (_, t, _, _) = tree_setup(&mut r, &tb, &cfg, 8, &RenderCfg { spaces: true, braces: false, redundant_parens: true, call_space: false });
@@ -300,7 +392,7 @@ pub fn c03(a: &Args) -> CaseSet {
         if accepted(&cs.cases[i1].obs) && accepted(&cs.cases[i2].obs) {
             let norm = |o: &Obs| match o { Obs::T(t) => Obs::T(anf(t, &tb)), x => x.clone() };
             let same = cs.cases[i1].obs.iter().zip(&cs.cases[i2].obs).all(|(x, y)| norm(x) == norm(y)) && cs.cases[i3].obs.iter().zip(&cs.cases[i2].obs).all(|(x, y)| norm(x) == norm(y));
-            let note = if same { String::new() } else { format!("flat {:?} vs deep {:?} vs deep->flat {:?}", cs.cases[i1].obs.iter().map(pretty_obs).collect::<Vec<_>>(), cs.cases[i2].obs.iter().map(pretty_obs).collect::<Vec<_>>(), cs.cases[i3].obs.iter().map(pretty_obs).collect::<Vec<_>>()) };
+            let note = if same { String::new() } else { format!("{}flat {:?} vs deep {:?} vs deep->flat {:?}", if prefix_operator_over_group(&text, &tb) { "prefix-operator-over-group: " } else { "" }, cs.cases[i1].obs.iter().map(pretty_obs).collect::<Vec<_>>(), cs.cases[i2].obs.iter().map(pretty_obs).collect::<Vec<_>>(), cs.cases[i3].obs.iter().map(pretty_obs).collect::<Vec<_>>()) };
             for k in [i1, i2, i3] { cs.cases[k].oracle_ok = Some(same); cs.cases[k].oracle_note = note.clone(); cs.cases[k].family = "sloppy-both-accept"; }
         }
     }
